@@ -3,5 +3,6 @@ let table : (string * (Model.n list -> Model.n list)) list = [
   ("inflights", Model.run_inflights);
   ("quorum", Model.run_quorum);
   ("memstorage", Model.run_memstorage);
+  ("confchange", Model.run_confchange);
   ("node", Model.run_node);
 ]
